@@ -5,6 +5,8 @@ import (
 	"sync"
 	"unicode/utf8"
 
+	redact "github.com/cockroachdb/redact"
+	ifaces "github.com/cockroachdb/redact/interfaces"
 	"github.com/cockroachdb/redact/internal/buffer"
 )
 
@@ -20,6 +22,7 @@ type bufOp struct {
 	Text  []byte // payload for 'w'
 	Valid bool
 	Raw   bool // only enabled in raw mode (well-formed fragment); otherwise only in escaping modes
+	Class byte // for Kind 'b' (StringBuilder call): 'S' safe, 'U' unsafe, 'R' raw fragment
 }
 
 func bufOps() []bufOp {
@@ -49,6 +52,35 @@ func bufOps() []bufOp {
 		ops = append(ops, bufOp{Name: "raw WriteString(" + q(p) + ")", Kind: 'w', Raw: true, Text: []byte(p), Valid: true, Apply: func(b *buffer.Buffer) { b.WriteString(p) }})
 	}
 	ops = append(ops, bufOp{Name: "Grow(3)", Kind: 'g', Apply: func(b *buffer.Buffer) { b.Grow(3) }})
+	// StringBuilder-level calls (the builder selects the mode itself): applied to a builder wrapped around the state
+	sb := func(name string, class byte, text string, valid bool, f func(b *redact.StringBuilder)) {
+		ops = append(ops, bufOp{Name: "StringBuilder." + name, Kind: 'b', Class: class, Text: []byte(text), Valid: valid, Apply: func(b *buffer.Buffer) {
+			w := redact.StringBuilder{Buffer: *b}
+			f(&w)
+			*b = w.Buffer
+		}})
+	}
+	for _, x := range []byte{'a', 0xe2, 0x80, 0xb9, 0xba} {
+		x := x
+		sb(fmt.Sprintf("SafeByte(0x%02x)", x), 'S', string([]byte{x}), x < 0x80, func(b *redact.StringBuilder) { b.SafeByte(ifaces.SafeByte(x)) })
+		sb(fmt.Sprintf("UnsafeByte(0x%02x)", x), 'U', string([]byte{x}), x < 0x80, func(b *redact.StringBuilder) { b.UnsafeByte(x) })
+	}
+	for _, r := range []rune{'‹', '\n'} {
+		r := r
+		sb(fmt.Sprintf("SafeRune(%#x)", r), 'S', string(r), true, func(b *redact.StringBuilder) { b.SafeRune(redact.SafeRune(r)) })
+		sb(fmt.Sprintf("UnsafeRune(%#x)", r), 'U', string(r), true, func(b *redact.StringBuilder) { b.UnsafeRune(r) })
+	}
+	for _, p := range []string{"", "s" + mEnd, "\xe2\x80"} {
+		p := p
+		sb("SafeString("+q(p)+")", 'S', p, utf8.ValidString(p), func(b *redact.StringBuilder) { b.SafeString(redact.SafeString(p)) })
+		sb("UnsafeString("+q(p)+")", 'U', p, utf8.ValidString(p), func(b *redact.StringBuilder) { b.UnsafeString(p) })
+		sb("SafeBytes("+q(p)+")", 'S', p, utf8.ValidString(p), func(b *redact.StringBuilder) { b.SafeBytes([]byte(p)) })
+		sb("Write("+q(p)+")", 'U', p, utf8.ValidString(p), func(b *redact.StringBuilder) { b.Write([]byte(p)) })
+	}
+	sb("SafeInt(7)", 'S', "7", true, func(b *redact.StringBuilder) { b.SafeInt(7) })
+	sb("Print(Safe(p),u)", 'R', "p‹ u›", true, func(b *redact.StringBuilder) { b.Print(redact.Safe("p"), " ", "u") })
+	sb("Printf(%d,3)", 'R', "n=‹3›", true, func(b *redact.StringBuilder) { b.Printf("n=%d", 3) })
+	sb("Print()", 'R', "", true, func(b *redact.StringBuilder) { b.Print() })
 	return ops
 }
 
